@@ -22,7 +22,7 @@ ANCHORS = {"weaver.py": [(64, 79), (273, 276), (510, 514), (580, 582), (753, 756
                          (866, 869), (898, 901), (943, 948), (984, 988)]}
 FORMS_HARNESSES = "all"
 FORMS_SKIP = ("deep-narrow-histories",)
-FORMS_WIDTH = {"domain-histories": 7, "missing-last-sample-cut-off-first": 5}
+FORMS_WIDTH = {"domain-histories": 4, "missing-last-sample-cut-off-first": 4}
 EXPLANATION = "exhaustive exploration of operation histories on the live object against a functional model"
 
 TAILS = [(st, n, rule) for st in RC.STRATS for n in (2, 5) for rule in ("trapezoid", "rectangle")]
